@@ -591,3 +591,29 @@ func (v *VerifAdvEnfConn) SendDatagramProbe(mdfs, mtu int64, n int) (ok bool, re
 	}
 	return false, -1, 0, e
 }
+
+// VerifAdvEnfIdleDeadlineOf: nextIdleTimeoutTime - idleTimeoutStartTime and the 3*PTO that entered it,
+// of any connection (read while its goroutines are idle).
+func VerifAdvEnfIdleDeadlineOf(c *Conn) (deadline, pto3 time.Duration) {
+	return c.nextIdleTimeoutTime().Sub(c.idleTimeoutStartTime()), c.rttStats.PTO(true) * 3
+}
+
+// VerifAdvEnfOutgoingMaxStreams: how many streams of the type this connection may open in total
+// according to its own bookkeeping of the peer's limit (initial value and MAX_STREAMS received).
+func VerifAdvEnfOutgoingMaxStreams(c *Conn, uni bool) int64 {
+	m := c.streamsMap
+	if uni {
+		m.outgoingUniStreams.mutex.RLock()
+		defer m.outgoingUniStreams.mutex.RUnlock()
+		if m.outgoingUniStreams.maxStream == protocol.InvalidStreamID {
+			return 0
+		}
+		return int64(m.outgoingUniStreams.maxStream.StreamNum())
+	}
+	m.outgoingBidiStreams.mutex.RLock()
+	defer m.outgoingBidiStreams.mutex.RUnlock()
+	if m.outgoingBidiStreams.maxStream == protocol.InvalidStreamID {
+		return 0
+	}
+	return int64(m.outgoingBidiStreams.maxStream.StreamNum())
+}
